@@ -40,7 +40,7 @@ void oracle_misuse_op(const Op& op) {
   }
   Block* b = (op.slot >= 0 && op.slot < (int)H.slots.size()) ? H.slots[op.slot] : nullptr;
   // the overflow check also applies to blocks of fewer than 8 bytes and to blocks that another thread allocated (checked on the cross-thread free path)
-  const bool overflow_ok = (op.code == OP_overflow_byte) && b && b->heap >= 0 && b->align == 0 && b->offset == 0 && !b->odd_origin && b->usable == b->req && b->req >= 1 && b->usable + 8 <= 8u * 1024 * 1024 && b->filled;   // (huge pages carry no fill bytes: only the canary is checked there)
+  const bool overflow_ok = (op.code == OP_overflow_byte) && b && b->heap >= 0 && b->align == 0 && b->offset == 0 && !b->odd_origin && b->usable == b->req && b->req >= 1 && b->filled;
   if (!overflow_ok && !local_plain_small(b)) { H.ops_noop++; return; }
   mi_heap_t* h = heap_ptr(b->heap);
   if (op.code == OP_double_free) {
@@ -86,7 +86,8 @@ void oracle_misuse_op(const Op& op) {
     mi_free(p);
     T->misuse_in_progress = false;
     int n = take_error(EB_EFAULT);
-    if (n < 1) sim_violation("overflow_undetected", "a foreign byte written just past the requested size (%zu) of block %p was not reported when the block was freed", req, p);
+    // (blocks with a page of their own segment -- requested size + 8 above 16 MiB -- are named as such: known finding F25)
+    if (n < 1) sim_violation("overflow_undetected", "a foreign byte written just past the requested size (%zu) of %sblock %p was not reported when the block was freed", req, (req + 8 > (16u << 20)) ? "huge (more than 16 MiB: own segment) " : "", p);
     H.misuse_detected++; probe(PR_misuse_detected);
     if (is_dbg_build()) sim_finish_ok();      // debug-build assertions after a detected error are outside the property
     verify_all_live("after a detected overflow");
